@@ -112,15 +112,174 @@ func (e *Enc) analyseAllocs() {
 		}
 		return true
 	}
+	// argOnly: the address leaves the function only as a direct call argument (e.g. a pointer-receiver method call);
+	// such a cell can be changed only by the calls that receive it
+	var argOnly func(v ssa.Value) bool
+	argOnly = func(v ssa.Value) bool {
+		refs := v.Referrers()
+		if refs == nil {
+			return false
+		}
+		for _, r := range *refs {
+			switch x := r.(type) {
+			case *ssa.Store:
+				if x.Val == v {
+					return false
+				}
+			case *ssa.UnOp:
+				if x.Op.String() != "*" {
+					return false
+				}
+			case *ssa.FieldAddr, *ssa.IndexAddr:
+				if !ok(x.(ssa.Value), 1) {
+					return false
+				}
+			case *ssa.DebugRef:
+			case *ssa.Call:
+				for _, a := range x.Call.Args {
+					_ = a
+				}
+				if x.Call.Value == v {
+					return false
+				}
+			default:
+				return false
+			}
+		}
+		return true
+	}
+	e.cells = nil
 	for _, b := range e.fn.Blocks {
 		for _, in := range b.Instrs {
 			if a, isA := in.(*ssa.Alloc); isA {
 				if ok(a, 0) {
 					e.private[a] = true
+				} else if argOnly(a) {
+					e.cells = append(e.cells, a)
 				}
 			}
 		}
 	}
+	for _, fv := range e.fn.FreeVars {
+		if argOnly(fv) {
+			e.cells = append(e.cells, fv)
+		}
+	}
+}
+
+// cellTouched: is the cell passed to a call or stored to (directly or through a field) in one of the blocks?
+func cellTouched(v ssa.Value, blocks map[*ssa.BasicBlock]bool) bool {
+	refs := v.Referrers()
+	if refs == nil {
+		return false
+	}
+	for _, r := range *refs {
+		if blocks != nil && !blocks[r.Block()] {
+			continue
+		}
+		switch x := r.(type) {
+		case *ssa.Store:
+			if x.Addr == v {
+				return true
+			}
+		case *ssa.Call:
+			return true
+		case *ssa.FieldAddr:
+			if cellTouched(x, blocks) {
+				return true
+			}
+		case *ssa.IndexAddr:
+			if cellTouched(x, blocks) {
+				return true
+			}
+		}
+	}
+	return false
+}
+
+// saveCells records the contents of the function's own variable cells that a call cannot reach.
+func (e *Enc) saveCells(skip func(v ssa.Value) bool) []savedCell {
+	var out []savedCell
+	for _, c := range e.cells {
+		tv, ok := e.vals[c]
+		if !ok || skip(c) {
+			continue
+		}
+		t := deref(c.Type())
+		sc := savedCell{ref: tv.S, t: t}
+		if st, isS := t.Underlying().(*types.Struct); isS {
+			ss := e.sortOf(t)
+			for i := 0; i < st.NumFields(); i++ {
+				sc.vals = append(sc.vals, sel(e.get(e.st, e.heapKey(ss, i)), tv.S))
+			}
+		} else {
+			sc.vals = append(sc.vals, sel(e.get(e.st, e.memKey(e.sortOf(t))), tv.S))
+		}
+		out = append(out, sc)
+	}
+	return out
+}
+
+type savedCell struct {
+	ref  string
+	t    types.Type
+	vals []string
+	skip map[int]bool
+}
+
+// cellPassedToUnknown: is the cell handed to a call whose effect on it is not described by a modifies clause?
+func (e *Enc) cellPassedToUnknown(v ssa.Value, blocks map[*ssa.BasicBlock]bool) bool {
+	refs := v.Referrers()
+	if refs == nil {
+		return false
+	}
+	for _, r := range *refs {
+		if blocks != nil && !blocks[r.Block()] {
+			continue
+		}
+		c, ok := r.(*ssa.Call)
+		if !ok {
+			continue
+		}
+		keys, _ := e.calleeKeys(c.Common())
+		known := false
+		for _, k := range keys {
+			if ct := e.w.cs.Funcs[k]; ct != nil && ct.HasMod {
+				known = true
+			}
+		}
+		if !known {
+			return true
+		}
+	}
+	return false
+}
+
+func (e *Enc) restoreCells(saved []savedCell) {
+	for _, sc := range saved {
+		if _, isS := sc.t.Underlying().(*types.Struct); isS {
+			ss := e.sortOf(sc.t)
+			for i, v := range sc.vals {
+				if sc.skip[i] {
+					continue
+				}
+				k := e.heapKey(ss, i)
+				e.st.m[k] = e.nameTerm(k, store(e.get(e.st, k), sc.ref, v))
+			}
+		} else {
+			if sc.skip[0] {
+				continue
+			}
+			k := e.memKey(e.sortOf(sc.t))
+			e.st.m[k] = e.nameTerm(k, store(e.get(e.st, k), sc.ref, sc.vals[0]))
+		}
+	}
+}
+
+func (e *Enc) nameTerm(key, term string) string {
+	c := e.fresh("s_"+key, e.compKeySort(key))
+	e.assert(eq(c, term))
+	return c
 }
 
 func (e *Enc) edgeTerm(p, b *ssa.BasicBlock) string {
@@ -204,6 +363,24 @@ func (e *Enc) refBound(c string, t types.Type, st *State) {
 		e.fact(fmt.Sprintf("(<= (sbase %s) %s)", c, a))
 	case *types.Interface:
 		e.fact(fmt.Sprintf("(=> ((_ is VRef) %s) (<= (vid %s) %s))", c, c, a))
+	case *types.Struct:
+		// by-value struct: bound the references held in its fields (one level)
+		u := t.Underlying().(*types.Struct)
+		info := e.w.so.structInfo[e.sortOf(t)]
+		if info == nil {
+			return
+		}
+		for i := 0; i < u.NumFields() && i < len(info.Fields); i++ {
+			ft := u.Field(i).Type()
+			switch ft.Underlying().(type) {
+			case *types.Pointer, *types.Map, *types.Slice, *types.Interface:
+				e.refBound(fmt.Sprintf("(%s %s)", info.Fields[i], c), ft, st)
+				if _, isSl := ft.Underlying().(*types.Slice); isSl {
+					f := fmt.Sprintf("(%s %s)", info.Fields[i], c)
+					e.fact(fmt.Sprintf("(and (>= (slen %s) 0) (>= (sbase %s) 0) (=> (= (sbase %s) 0) (= (slen %s) 0)))", f, f, f, f))
+				}
+			}
+		}
 	}
 }
 
@@ -300,6 +477,17 @@ func (e *Enc) mergeStates(preds []*ssa.BasicBlock, b *ssa.BasicBlock) *State {
 		}
 		ns.m[k] = c
 	}
+	if !sameEpoch {
+		// the epoch's own allocation counter (used by closure axioms of lazily created components)
+		an := fmt.Sprintf("alloc__e%d", ns.epoch)
+		if _, ok := e.declared[an]; !ok {
+			e.decls = append(e.decls, fmt.Sprintf("(declare-const %s Int)", an))
+			e.declared[an] = sInt
+		}
+		if a, ok := ns.m["alloc"]; ok {
+			e.assert(eq(an, a))
+		}
+	}
 	return ns
 }
 
@@ -326,16 +514,44 @@ func (e *Enc) havocLoop(li *loopInfo) {
 				ns.m[k] = e.get(old, k)
 			}
 		}
+		var cells []savedCell
+		if e.pass != 1 {
+			e.st = old
+			cells = e.saveCells(func(v ssa.Value) bool { return e.cellPassedToUnknown(v, li.body) })
+			// fields written inside the loop (by stores or by contracted callees) are not restored
+			for ci := range cells {
+				cells[ci].skip = map[int]bool{}
+				if _, isS := cells[ci].t.Underlying().(*types.Struct); isS {
+					ss := e.sortOf(cells[ci].t)
+					for i := range cells[ci].vals {
+						if li.mods[e.heapKey(ss, i)] {
+							cells[ci].skip[i] = true
+						}
+					}
+				} else if li.mods[e.memKey(e.sortOf(cells[ci].t))] {
+					cells[ci].skip[0] = true
+				}
+			}
+		}
 		e.st = ns
 		na := e.get(ns, e.allocKey())
 		e.assert(fmt.Sprintf("(>= %s %s)", na, oldAlloc))
+		e.restoreCells(cells)
 	} else {
 		oldAlloc := e.get(e.st, e.allocKey())
+		pre := map[string]string{}
 		for _, k := range sortedKeys(li.mods) {
 			if _, known := e.compSort[k]; !known {
 				continue
 			}
+			if !li.genMods[k] && k != "alloc" && (strings.HasPrefix(k, "H|") || strings.HasPrefix(k, "Arr|") || strings.HasPrefix(k, "Map|") || strings.HasPrefix(k, "Mem|")) {
+				pre[k] = e.get(e.st, k)
+			}
 			e.st.m[k] = e.fresh("lh_"+k, e.compKeySort(k))
+		}
+		// loop frame: a component that the loop only touches at objects it allocates keeps everything allocated before the loop
+		for _, k := range sortedKeys(pre) {
+			e.assert(fmt.Sprintf("(forall ((x Int)) (! (=> (<= x %s) (= (select %s x) (select %s x))) :pattern ((select %s x))))", oldAlloc, e.st.m[k], pre[k], e.st.m[k]))
 		}
 		for _, k := range sortedKeys(li.mods) {
 			if e.refComp[k] {
